@@ -532,6 +532,94 @@ func hostilePeer(id string, seed uint64, role string) runner.Result {
 	return res
 }
 
+// stalledPeerServeCancel: the server's context is cancelled while its handler is blocked (in a
+// receive, or in a send inside the transport) and the client does not read any more, so whatever
+// the server writes on the way out (a soft-cancel packet, an error, a half-close) stays in the
+// transport until the transport is closed. ServeOne must still return and leave nothing behind.
+func stalledPeerServeCancel(id string, seed uint64) runner.Result {
+	base := census.IDs(census.Snapshot())
+	r := &payload.SplitMix{S: seed}
+	soft := r.Intn(2) == 0
+	hstate := payload.Pick(r, []string{"recv", "send", "idle"})
+	opts := drpcmanager.Options{SoftCancel: soft}
+	handler := rig.HandlerFunc(func(stream drpc.Stream, rpc string) error {
+		var m []byte
+		if err := stream.MsgRecv(&m, payload.Enc{}); err != nil {
+			return err
+		}
+		switch hstate {
+		case "send":
+			out := payload.Make(1, 1, 0, 0, 50000)
+			return stream.MsgSend(&out, payload.Enc{})
+		case "idle":
+			out := payload.Make(1, 1, 0, 0, 10)
+			return stream.MsgSend(&out, payload.Enc{})
+		}
+		return stream.MsgRecv(&m, payload.Enc{}) // blocks: the client sends nothing more
+	})
+	rg := rig.New(rig.Config{Net: simnet.Opts{Cap: 0}, Client: opts, Server: opts}, handler)
+	var calls []*rig.Op
+	calls = append(calls, rig.Go("client", func() (interface{}, error) {
+		st, err := rg.Conn.NewStream(context.Background(), "/x", payload.Enc{})
+		if err != nil {
+			return nil, err
+		}
+		in := payload.Make(1, 0, 0, 0, 20)
+		if err := st.MsgSend(&in, payload.Enc{}); err != nil {
+			return nil, err
+		}
+		if hstate == "idle" {
+			var out []byte
+			st.MsgRecv(&out, payload.Enc{})
+			st.Close()
+			return nil, nil
+		}
+		// the client application goes quiet without reading the reply
+		select {}
+	}))
+	census.Quiesce(rig.Watchdog)
+	rg.Pair.A.StallReads(true) // from now on the client side does not drain the transport
+	census.Quiesce(rig.Watchdog)
+	rg.StopServe()
+	st, snap := census.QuiesceOr(nil, rig.Watchdog)
+	desc := fmt.Sprintf("server context cancelled with the handler %s and a peer that reads nothing more (soft=%v)", map[string]string{"recv": "blocked in a receive", "send": "blocked in a send inside the transport", "idle": "returned (connection idle)"}[hstate], soft)
+	if st == "watchdog" {
+		rg.Teardown()
+		return runner.Inconcl(id, "watchdog: "+desc)
+	}
+	var fails []string
+	if !rg.ServeOp.Returned() {
+		fails = append(fails, "ServeOne has not returned after its context was cancelled\n"+census.Dump(census.InDRPC(snap)))
+	}
+	if n := rg.Pair.B.CloseCount(); n != 1 && len(fails) == 0 {
+		fails = append(fails, fmt.Sprintf("the server transport was closed %d times", n))
+	}
+	rg.Pair.A.StallReads(false)
+	cl := rig.Go("conn.Close", func() (interface{}, error) { return nil, rg.Conn.Close() })
+	if !cl.Wait() && len(fails) == 0 {
+		fails = append(fails, "Conn.Close on the client has not returned")
+	}
+	rg.Pair.A.Close()
+	rg.Pair.B.Close()
+	_, snap = census.Quiesce(rig.Watchdog)
+	var left []census.G
+	for _, g := range census.NewSince(census.InDRPC(snap), base) {
+		if !g.Has("main.stalledPeerServeCancel") {
+			left = append(left, g)
+		}
+	}
+	if len(left) > 0 && len(fails) == 0 {
+		fails = append(fails, "library goroutines left behind:\n"+census.Dump(left))
+	}
+	rg.Teardown()
+	if len(fails) > 0 {
+		return runner.Violation(id, "close:stalled-peer:"+keyOf(fails[0]), desc+"\n"+strings.Join(fails, "\n"))
+	}
+	res := runner.Hold(id, desc, true)
+	res.Events = 1
+	return res
+}
+
 // earlyData: the peer has already sent packets for the stream id the client is about to use when
 // the client creates the stream; the connection is closed while the new stream has been published to
 // the reader but not yet handed to the stream manager.
@@ -647,6 +735,11 @@ func gen(tier string, seed uint64) []runner.Scenario {
 	if tier == "thorough" {
 		ne = 2000
 	}
+	for i := 0; i < ne/2; i++ {
+		i := i
+		id := fmt.Sprintf("stalled-peer-serve-cancel/%d", i)
+		out = append(out, runner.Scenario{ID: id, Run: func() runner.Result { return stalledPeerServeCancel(id, payload.Hash(seed, 0xC124, uint64(i))) }})
+	}
 	for i := 0; i < ne; i++ {
 		i := i
 		id := fmt.Sprintf("early-data/%d", i)
@@ -706,7 +799,7 @@ func main() {
 	runner.Main(runner.Check{
 		Property: "C12",
 		Level:    "fault_enumeration",
-		Rule:     "close points: a dry run of each of the 15 deterministic workloads (both cancel modes) lists every internal Point it passes per role with its occurrence number and every transport write of both endpoints; one case = (workload, cancel mode, parked goroutine at that point or at that write before/after delivery, action in {Conn.Close, two concurrent Conn.Close, cancellation of the server context}). quick runs every point with Conn.Close and one seeded second action, thorough runs all three actions. Plus a Serve family: 1-4 connections with fast and blocked handlers, optionally a connection handed over at the last moment and a server goroutine parked at one of 6 points, then the Serve context is cancelled (with or without letting the last accept settle). Plus a hostile-peer family: a raw peer feeds a mutated valid session (or random bytes) to a live server / client and goes away, then the endpoint is closed. Non-trivial: the park point was reached before the close. Distinct: by case tuple.",
+		Rule:     "close points: a dry run of each of the 16 deterministic workloads (both cancel modes) lists every internal Point it passes per role with its occurrence number and every transport write of both endpoints; one case = (workload, cancel mode, parked goroutine at that point or at that write before/after delivery, action in {Conn.Close, two concurrent Conn.Close, cancellation of the server context}). quick runs every point with Conn.Close and one seeded second action, thorough runs all three actions. Plus a Serve family: 1-4 connections with fast and blocked handlers, optionally a connection handed over at the last moment and a server goroutine parked at one of 6 points, then the Serve context is cancelled (with or without letting the last accept settle). Plus a hostile-peer family: a raw peer feeds a mutated valid session (or random bytes) to a live server / client and goes away, then the endpoint is closed. Non-trivial: the park point was reached before the close. Distinct: by case tuple.",
 		Assumptions: []string{
 			"the transport lets go of pending I/O when closed (simnet does)",
 			"closing one side tears the other down through the transport, so at quiescence both transports must have been closed exactly once and no library goroutine may remain",
